@@ -295,6 +295,14 @@ def run_one(ctx: Any, seed: int, tier: str, replay: Optional[dict] = None) -> di
             "bufsize": r.choice([8192, 8192, 16, 64]),
             "rawmax": r.choice([0, 0, 7, 33]),
         }
+        # read-side faults on ONE file: its n-th open fails once (the first open is the encoding sniff,
+        # the second the real read), or every raw read of it comes back short
+        if r.chance(0.2):
+            victim = r.choice(sorted(world["meta"]))
+            if r.chance(0.6):
+                sc["read_fault"] = {"cls": "open_r", "path": os.path.basename(victim), "nth": r.choice([0, 0, 1]), "kind": "err", "errno": r.choice(["EIO", "EACCES", "EMFILE"])}
+            else:
+                sc["read_fault"] = {"cls": "open_r", "path": os.path.basename(victim), "repeat": True, "kind": "short_read", "bytes": r.choice([7, 64, 300])}
         hs = rng.fork("hashseed").choice(ctx.hashseeds(2))
     cl = ctx.cluster
     z = cl.zygote(hs, WARM)
@@ -312,15 +320,19 @@ def run_one(ctx: Any, seed: int, tier: str, replay: Optional[dict] = None) -> di
         seams.restore_tree(root, initial)
         meta0 = seams.snapshot_meta(root)
         events: list = []
-        knobs = {"lookahead": sc["lookahead"], "dequeue": sc["dequeue"], "pool_backend": sc["backend"], "journal_reads": False,
-                 "record_patches": True, "bufsize": sc["bufsize"], "rawmax": sc["rawmax"]}
+        rplan = [sc["read_fault"]] if sc.get("read_fault") else []
+        knobs = {"lookahead": sc["lookahead"], "dequeue": sc["dequeue"], "pool_backend": sc["backend"], "journal_reads": bool(rplan),
+                 "record_patches": True, "bufsize": sc["bufsize"], "rawmax": sc["rawmax"], "worker_plan": rplan}
         n = z.node({"name": "n0", "root": root, "cwd": world["cwd"], "seed": sc["node_seed"], "knobs": knobs, "tape": sc.get("tape")}, sink=events)
         try:
             if sc["via"] == "api":
-                out = n.call("lint_paths", paths=["."], fix=True, apply_fixes=True, processes=sc["processes"], retain_files=True)
+                out = n.call("lint_paths", paths=["."], fix=True, apply_fixes=True, processes=sc["processes"], retain_files=True, plan=rplan or None)
             else:
-                out = n.call("cli", argv=["fix", ".", "-p", str(sc["processes"])])
+                out = n.call("cli", argv=["fix", ".", "-p", str(sc["processes"])], plan=rplan or None)
             pool = dict(n.pool)
+            for k_, v_ in dict(n.fired).items():
+                if k_ in ("err", "short_read"):
+                    faults["read_" + k_] += v_
         finally:
             tape = n.close()
         after = seams.snapshot_tree(root)
